@@ -384,8 +384,58 @@ func initErrorReachesTheCaller(c *core.Ctx) {
 	}
 	initF, newF := p.SSAFunc(initM), p.SSAFunc(newCfg)
 	n := 0
+	// helpers that make the configuration for an entry point: they call
+	// NewConfig and return the *Config with an error
+	builders := map[*ssa.Function]bool{}
 	for _, fn := range repoFns(p, "") {
-		if fn.Parent() != nil || fn.Signature.Recv() != nil {
+		if fn.Parent() != nil || fn.Signature.Recv() != nil || fn == newF {
+			continue
+		}
+		res := fn.Signature.Results()
+		if res.Len() != 2 || core.NamedOf(res.At(0).Type()) != cfgT || !isErrorType(res.At(1).Type()) {
+			continue
+		}
+		calls := false
+		for _, b := range fn.Blocks {
+			for _, in := range b.Instrs {
+				if ci, ok := in.(ssa.CallInstruction); ok && ci.Common().StaticCallee() == newF {
+					calls = true
+				}
+			}
+		}
+		if !calls {
+			continue
+		}
+		builders[fn] = true
+		n++
+		bad := ""
+		for _, b := range fn.Blocks {
+			for _, in := range b.Instrs {
+				ret, ok := in.(*ssa.Return)
+				if !ok || len(ret.Results) != 2 {
+					continue
+				}
+				if k, isK := spilledResult(b, ret.Results[1]).(*ssa.Const); !isK || !k.IsNil() {
+					continue
+				}
+				tested := false
+				for _, b2 := range fn.Blocks {
+					for _, in2 := range b2.Instrs {
+						if call, ok := in2.(*ssa.Call); ok && call.Call.StaticCallee() == initF && call.Referrers() != nil && core.NilCheckedErrDominates(call, b) {
+							tested = true
+						}
+					}
+				}
+				if !tested {
+					bad = p.Pos(ret.Pos())
+				}
+			}
+		}
+		c.Check(bad == "", core.SSAName(fn)+"|init-error-tested-before-success", p.Pos(fn.Pos()),
+			fn.Name()+" makes the configuration for an entry point and reports success only after it has tested the error of Config.init()"+ifs(bad != "", ": the return at "+bad+" is reached without that test (NewConfig has run init already and dropped its error): an invalid override is dropped silently and the script gets the object the host asked to replace"))
+	}
+	for _, fn := range repoFns(p, "") {
+		if fn.Parent() != nil || fn.Signature.Recv() != nil || builders[fn] {
 			continue
 		}
 		var runs []ssa.Instruction
@@ -400,7 +450,7 @@ func initErrorReachesTheCaller(c *core.Ctx) {
 				if cal == nil {
 					continue
 				}
-				if cal == newF {
+				if cal == newF || builders[cal] {
 					builds = true
 				}
 				if cal.Pkg != nil && core.RelPkg(cal.Pkg.Pkg) == "vm" && (strings.HasPrefix(cal.Name(), "Run") || cal.Name() == "Call") {
@@ -412,18 +462,25 @@ func initErrorReachesTheCaller(c *core.Ctx) {
 			continue
 		}
 		n++
-		// a call of init whose result is compared with nil and whose success branch dominates every run
+		// a call of init (or of a helper that makes the configuration) whose error is compared with nil and whose success branch dominates every run
 		okAll := true
 		for _, r := range runs {
 			okr := false
 			for _, b := range fn.Blocks {
 				for _, in := range b.Instrs {
 					call, ok := in.(*ssa.Call)
-					if !ok || call.Call.StaticCallee() != initF || call.Referrers() == nil {
+					if !ok || call.Referrers() == nil {
 						continue
 					}
-					if core.NilCheckedErrDominates(call, r.Block()) {
+					if call.Call.StaticCallee() == initF && core.NilCheckedErrDominates(call, r.Block()) {
 						okr = true
+					}
+					if builders[call.Call.StaticCallee()] {
+						for _, ref := range *call.Referrers() {
+							if ex, ok := ref.(*ssa.Extract); ok && ex.Index == 1 && core.NilCheckedErrDominates(ex, r.Block()) {
+								okr = true
+							}
+						}
 					}
 				}
 			}
